@@ -4,7 +4,7 @@
 # On success copies it to /verif/seeded/<ID>-<v>/ with meta.json.
 set -u
 ID=$1; V=$2
-PID=${ID#[SVWXYZA]}   # property id (later agent directories are named S<property> / V<property>)
+PID=C${ID: -2}   # property id = the two digits at the end of the agent directory name (S01, AC01, AE01 ...)
 SRC=/tmp/agents/$ID-out/$V
 WT=/tmp/confirm-$ID-$V
 TGT=${CONFIRM_TGT:-/tmp/confirm-target}   # target dir shared by the sequential runs of one lane
